@@ -3,7 +3,7 @@ from .. import common as C
 from .. import reqcheck as RC
 from .. import reqsuite as S
 
-CHECKER = 'coqc props/C12.v (proofs/RequestP.v, proofs/BackendsP.v) + correspondence of transmitted bytes + canonical-encoding oracle + stubbed serial/gpsd backends'
+CHECKER = 'coqc props/C12.v props/C12b.v props/C12c.v (proofs/RequestP.v, proofs/BackendsP.v, proofs/LineBackendP.v) + correspondence of transmitted bytes + canonical-encoding oracle + stubbed serial/gpsd backends'
 
 
 def check(tier, seed):
@@ -17,7 +17,9 @@ def check(tier, seed):
         C.tie_b_kernels(res, wd, ('ck', 'frame'))
         a1 = list(res.assumption_lines)
         C.props_obligations(res, 'C12b', wd)
-        res.assumption_lines = a1 + res.assumption_lines
+        a2 = a1 + res.assumption_lines
+        C.props_obligations(res, 'C12c', wd)
+        res.assumption_lines = a2 + res.assumption_lines
         cases = RC.run_suite(res, 'C12', tier, seed, 300, 10000, oracle=lambda sc, rq, r: S.canonical_tx_oracle(rq, r))
         from .. import backends as BK
         cases += BK.backend_cases(res, tier, seed)
